@@ -32,6 +32,22 @@ What is translated (one rule per construct, `e_*` / `s_*` methods of FnTrans):
   cut points   everything taken from outside the subset is a PARAMETER of the Lean definition (EXTERNALS, GLOBALS, CUTS,
                CUT_CALLS, CONTEXT_MANAGERS, ABS_METHODS, KEYFUNCS); the generated header lists them per function.
 
+Second wave (pyorbital/orbital.py and the sqlite archive of tlefile.py):
+  while loops  `while cond: body` gets a fuel parameter `fuel_k : Nat` per loop: at most `fuel_k` passes; the condition is
+               evaluated as often as Python evaluates it on the passes made; if it still holds afterwards the result is the
+               marker `Exc.outOfFuel` (not a Python exception).  Equivalence theorems quantify over all fuels.
+  unbound      a local declared `maybe_unbound` (read after a loop that may assign it zero times) is an `Option`; reading it
+               unassigned is `UnboundLocalError`
+  objects      attributes of a shared sub-object that may be absent (`self.orbit_elements.an_time`): a heap of optional
+               slots with the trace of loads / stores in program order (monad `MS heap`: an exception does not undo what was
+               done to the heap); a store (`self.db`, a sqlite3 connection): an abstract heap `DB` whose operations are
+               stateful parameters; `with self.db:` is a transaction (the heap is restored when an exception leaves it)
+  try          a body of several assignments to locals is accepted when the handler assigns every one of them again
+  numbers      float literals (the decimal written in the source), `+ - * /`, `** n`, comparisons, `abs`, `max` / `min`,
+               `int(x)` through the uninterpreted classes `FloatOps` / `FloatArith`; datetime64 / timedelta64 arithmetic
+               through `TimeOps`; a name rebound to a value of another type at the top level is a new Lean variable; an int
+               is never silently turned into a float by an assignment
+
 Guards that keep the value semantics of the translation equal to Python's reference semantics (refusal otherwise):
   a local that may be unbound where it is read; a container that is changed in place while reachable under two names; a
   container parameter changed in place; a loop body that changes what the loop iterates over; a `try` body of more than
@@ -61,6 +77,8 @@ class TransError(Exception):
 # ('abs', name)  ('opt', t)  ('list', t)  ('tuple', (t, ...))  ('dict', k, v)  ('iter', t)  ('float',) = abstract F
 F = ("abs", "F")
 T64 = ("abs", "T")
+TD = ("abs", "TD")
+VEC = ("abs", "Vec")
 
 
 def opt(t):
@@ -107,6 +125,7 @@ def lean_type(t):
 
 
 SELF_TYPES = {}
+INHABITED_NEEDED = set()      # type variables for which a hoisted declaration needs a placeholder value
 
 
 def type_vars(t, acc):
@@ -151,6 +170,9 @@ def placeholder(t):
         return "(default : FnRef)"
     if t == "response":
         return "(default : Response)"
+    if isinstance(t, tuple) and t[0] == "abs":
+        INHABITED_NEEDED.add(t[1])
+        return "(default : %s)" % t[1]
     raise TransError("a variable of type %s is first assigned inside a branch and used after it; no placeholder" % (t,))
 
 
@@ -233,7 +255,9 @@ def _balanced_whole(code):
 class Ext:
     """an external callable / global: becomes a parameter of every translated function that (transitively) uses it"""
 
-    def __init__(self, param, args, ret, raises=(), doc="", kwargs=None, argnames=None, none_typeerror=False):
+    def __init__(self, param, args, ret, raises=(), doc="", kwargs=None, argnames=None, none_typeerror=False,
+                 stateful=None):
+        self.stateful = stateful     # name of the heap type variable: the external reads / changes the object's store
         self.param, self.args, self.ret, self.raises, self.doc = param, list(args), ret, tuple(raises), doc
         self.argnames = argnames     # parameter names of the external, so that keyword arguments can be bound
         self.none_typeerror = none_typeerror   # passing None raises TypeError (checked against CPython for this callable)
@@ -241,11 +265,13 @@ class Ext:
 
     @property
     def mon(self):
-        return bool(self.raises)
+        return bool(self.raises) or bool(self.stateful)
 
     def lean_sig(self):
         ret = lean_type(self.ret)
-        if self.mon:
+        if self.stateful:
+            ret = "MS %s %s" % (self.stateful, ret)
+        elif self.mon:
             ret = "M " + ret
         if not self.args:
             return ret
@@ -261,6 +287,11 @@ EXTERNALS = {
                         ["requests.exceptions.Timeout", "requests.exceptions.RequestException"],
                         "`requests.get(uri, timeout=15)`; `requests.exceptions.Timeout` stands for that class and its subclasses",
                         kwargs={"timeout": "15"}),
+    "_Keplerians": Ext("new_Keplerians", [("abs", "Params")], ("abs", "Keplerians"), [],
+                       "`_Keplerians(params)`: a NEW object holding `params` (its other attributes start as None)"),
+    "vec[]": Ext("vec_get", [VEC, "int"], F, [], "`v[i]` on a position / velocity array"),
+    "np.datetime64": Ext("np_datetime64", [("abs", "TimeArg")], T64, ["ValueError"], "`np.datetime64(x)` of a caller-supplied time"),
+    "astronomy._days": Ext("astronomy_days", [TD], F, [], "`astronomy._days(td)`: a timedelta64 as a float number of days"),
     "os.path.join": Ext("os_path_join", ["str", "str"], "str", [], "`os.path.join(a, b)`"),
     "os.path.isfile": Ext("os_path_isfile", ["str"], "bool", [], "`os.path.isfile(p)`"),
     "os.path.exists": Ext("os_path_exists", ["str"], "bool", [], "`os.path.exists(p)`"),
@@ -279,11 +310,47 @@ CUT_CALLS = {
                           argnames=["uris", "open_func", "platform"]),
 }
 ABS_METHODS = {
+    ("Keplerians", "calculate"): Ext("keplerians_calculate", [("abs", "Keplerians"), ("abs", "TimeArg")], ("abs", "Kep"), ["Exception"],
+                                     "`kep.calculate(utc_time)` on the `_Keplerians` object created for this call (the kernel: T-C)",
+                                     argnames=["self", "utc_time"]),
     ("Session", "post"): Ext("session_post", [("abs", "Session"), "str", ("dict", "str", "str")], "response",
                              ["requests.exceptions.RequestException"], "`session.post(url, data=credentials)`",
                              argnames=["self", "url", "data"]),
     ("Session", "get"): Ext("session_get", [("abs", "Session"), "str"], "response",
                             ["requests.exceptions.RequestException"], "`session.get(url)`", argnames=["self", "url"]),
+}
+SQLERR = ["sqlite3.IntegrityError", "sqlite3.OperationalError"]
+# operations on the store (`self.db`) of an object: (class, method / function, argument types) -> external
+STORE_METHODS = {
+    ("SQLiteTLE", "execute", ("str",)): Ext("db_execute", ["str"], "unit", SQLERR, "`self.db.execute(sql)`", stateful="DB"),
+    ("SQLiteTLE", "execute", ("str", "int", "str")): Ext("db_execute_int_str", ["str", "int", "str"], "unit", SQLERR,
+                                                         "`self.db.execute(sql, (int, str))`", stateful="DB"),
+    ("SQLiteTLE", "execute", ("str", "str", "str", "str", "str")): Ext(
+        "db_execute_str4", ["str", "str", "str", "str", "str"], "unit", SQLERR, "`self.db.execute(sql, (str, str, str, str))`",
+        stateful="DB"),
+    ("SQLiteTLE", "table_exists", ("int",)): Ext("table_exists_int", ["int"], "bool", [], "`table_exists(self.db, <int>)`",
+                                                 stateful="DB"),
+    ("SQLiteTLE", "table_exists", ("str",)): Ext("table_exists_str", ["str"], "bool", [], "`table_exists(self.db, <str>)`",
+                                                 stateful="DB"),
+}
+HEAP_OPENERS = {
+    "sqlite3.connect": Ext("sqlite3_connect", ["str"], "unit", ["sqlite3.OperationalError"],
+                           "`self.db = sqlite3.connect(path)`: from here on the store is the database in that file", stateful="DB"),
+}
+# attributes of argument objects: read through an accessor parameter
+OBJ_ATTRS = {
+    ("TleObj", "satnumber"): Ext("tle_satnumber", [("abs", "TleObj")], "str", [], "`tle.satnumber`"),
+    ("TleObj", "line1"): Ext("tle_line1", [("abs", "TleObj")], "str", [], "`tle.line1`"),
+    ("TleObj", "line2"): Ext("tle_line2", [("abs", "TleObj")], "str", [], "`tle.line2`"),
+}
+# attributes SET on argument objects that the translated code never reads: the store is not kept
+OBJ_ATTRS_NOT_KEPT = {("TleObj", "platform_name")}
+SELF_METHOD_EXTS = {
+    ("Orbital", "get_position"): Ext("get_position", [T64], ("tuple", (VEC, VEC)), ["Exception"],
+                                     "`self.get_position(t, normalize=False)`: (position, velocity) in km, km/s (the SGP4 kernel, "
+                                     "tied by T-C); as a parameter it does not touch the cache slots", kwargs={"normalize": "False"}),
+    ("Orbital", "get_last_an_time"): Ext("get_last_an_time", [T64], T64, ["Exception"],
+                                         "`self.get_last_an_time(t)` (cut point; tied separately); does not touch the cache slots"),
 }
 CONTEXT_MANAGERS = {
     "requests.Session": Ext("requests_Session", [], ("abs", "Session"), [],
@@ -331,6 +398,47 @@ CUTS += [
      Ext("config_spacetrack_password", [("abs", "Config")], "str", ["KeyError", "TypeError"],
          "the expression `config[\"downloaders\"][\"fetch_spacetrack\"][\"password\"]`")),
 ]
+UTC = ("abs", "UTC")
+FN = ("abs", "Fn")
+CUTS += [
+    # --- Orbital.get_next_passes: the numeric kernels, at the granularity of lean/PV/Model/Passes.lean
+    ("_A + np.array([dt.timedelta(minutes=minutes) for minutes in range(_B * 60)])",
+     Ext("minute_grid", [UTC, "int"], ("abs", "Times"), [], "`utc_time + np.array([timedelta(minutes=m) for m in range(length * 60)])`")),
+    ("self.get_observer_look(_A, _B, _C, _D)[1] - _E",
+     Ext("elevation_samples", [("abs", "Times"), F, F, F, F], lst(F), ["Exception"],
+         "`self.get_observer_look(times, lon, lat, alt)[1] - horizon`: the elevation samples minus the horizon")),
+    ("np.where(np.diff(np.sign(_A)))[0]",
+     Ext("sign_changes", [lst(F)], lst("int"), [], "`np.where(np.diff(np.sign(elev)))[0]`: the indices i where sign(elev[i+1]) != sign(elev[i])")),
+    ("partial(self._elevation, _A, _B, _C, _D, _E)",
+     Ext("elevation_fn", [UTC, F, F, F, F], FN, [], "`partial(self._elevation, utc_time, lon, lat, alt, horizon)`")),
+    ("partial(self._elevation_inv, _A, _B, _C, _D, _E)",
+     Ext("elevation_inv_fn", [UTC, F, F, F, F], FN, [], "`partial(self._elevation_inv, utc_time, lon, lat, alt, horizon)`")),
+    ("_get_root(_A, _B, _C + 1.0, tol=_D / 60.0)",
+     Ext("get_root", [FN, "int", "int", F], F, ["Exception"],
+         "`_get_root(f, g, g' + 1.0, tol=tol / 60.0)` (brentq on [g, g' + 1])")),
+    ("_get_max_parab(_A, _B, _C, tol=_D / 60.0)",
+     Ext("get_max_parab", [FN, F, F, F], F, ["Exception"], "`_get_max_parab(f, start, end, tol=tol / 60.0)`")),
+    ("_A + dt.timedelta(minutes=_B)",
+     Ext("add_minutes", [UTC, F], UTC, ["OverflowError", "ValueError"], "`t + dt.timedelta(minutes=m)`")),
+    ("int(np.floor(_A))", Ext("int_floor", [F], "int", ["ValueError", "OverflowError"], "`int(np.floor(x))`")),
+    ("int(np.ceil(_A) + 1)", Ext("int_ceil_plus_1", [F], "int", ["ValueError", "OverflowError"], "`int(np.ceil(x) + 1)`")),
+    ("np.argmax(_A)", Ext("np_argmax", [lst(F)], "int", ["ValueError"], "`np.argmax(xs)`: index of the first maximum (ValueError on an empty array)")),
+]
+CUTS += [
+    ("np.datetime64(_get_tz_unaware_utctime(_A)) + np.timedelta64(0, 'us')",
+     Ext("lift_time_to_us", [("abs", "TimeArg")], T64, ["ValueError"],
+         "`np.datetime64(_get_tz_unaware_utctime(t)) + np.timedelta64(0, \"us\")`: the instant at (at least) microsecond resolution")),
+]
+CUTS += [
+    ("_A.epoch.item().isoformat()", Ext("tle_epoch_isoformat", [("abs", "TleObj")], "str", [], "`tle.epoch.item().isoformat()`")),
+    ("_utcnow().isoformat()", Ext("utcnow_isoformat", [], "str", ["OSError"], "`_utcnow().isoformat()` (the wall clock)")),
+    ("SATID_TABLE.format(_A)", Ext("satid_table_text", ["int"], "str", [], "`SATID_TABLE.format(num)` (SQL text)")),
+    ("SATID_VALUES.format(_A)", Ext("satid_values_text", ["int"], "str", [], "`SATID_VALUES.format(num)` (SQL text)")),
+]
+GLOBALS["SGDP4_ZERO_ECC"] = Ext("SGDP4_ZERO_ECC", [], "int", [], "module constant `SGDP4_ZERO_ECC`")
+GLOBALS["SGDP4_NEAR_NORM"] = Ext("SGDP4_NEAR_NORM", [], "int", [], "module constant `SGDP4_NEAR_NORM`")
+GLOBALS["PLATFORM_VALUES"] = Ext("PLATFORM_VALUES", [], "str", [], "module constant `PLATFORM_VALUES` (SQL text)")
+GLOBALS["PLATFORM_NAMES_TABLE"] = Ext("PLATFORM_NAMES_TABLE", [], "str", [], "module constant `PLATFORM_NAMES_TABLE` (SQL text)")
 # key functions accepted for max(..., key=<name>)
 KEYFUNCS = {
     "os.path.getctime": Ext("os_path_getctime", ["str"], ("abs", "K"), [], "`os.path.getctime(p)` (a number; only compared)"),
@@ -354,7 +462,9 @@ class Const:
 
 class FnSpec:
     def __init__(self, module, qualname, params, cls=None, int_is_cut=False, special=None, lean=None, ret=None, cuts=(),
-                 locals_=None):
+                 locals_=None, maybe_unbound=()):
+        self.maybe_unbound = set(maybe_unbound)   # locals that may be read while unbound (UnboundLocalError): held as Option
+        self.fuel = 0
         self.locals = locals_ or {}           # declared types of locals whose first value (`{}`) does not determine them
         self.cuts = set(cuts)                 # calls of these module functions are parameters (cut points)
         self.module, self.qualname, self.params, self.cls = module, qualname, params, cls
@@ -367,6 +477,17 @@ class FnSpec:
 CLASSES = {
     "Tle": dict(module="tlefile", attrs=TLE_ATTRS),
     "Downloader": dict(module="tlefile", attrs=dict(config=("abs", "Config"))),
+    # `self.tle.*` are the attributes `Tle._parse_tle` stores (tied by PV.Equiv.TranslatedParse); `self.orbit_elements.an_time`
+    # and `.an_period` are created lazily by `get_orbit_number`: traced slots
+    # `self.db` is the store: a sqlite3 connection; its operations are parameters working on an abstract store `DB`
+    "SQLiteTLE": dict(module="tlefile", attrs={"platforms": ("dict", "int", "str"), "writer_config": ("abs", "WriterConfig"),
+                                               "updated": "bool"}, heap=("abs", "DB"), heap_attr="db"),
+    # `_SGDP4.propagate`: reads `self.mode` and `self._params`, nothing else; writes nothing
+    "_SGDP4": dict(module="orbital", attrs={"mode": "int", "_params": ("abs", "Params")}),
+    "Orbital": dict(module="orbital",
+                    attrs={"tle.epoch": T64, "tle.orbit": "int", "tle.mean_motion_derivative": F,
+                           "tle.mean_motion_sec_derivative": F},
+                    slots={"orbit_elements.an_time": T64, "orbit_elements.an_period": TD}),
 }
 
 # translated functions, callee before caller where one calls another
@@ -387,6 +508,16 @@ SPEC = [
     FnSpec("tlefile", "Tle._read_tle", [], cls="Tle", cuts=["_get_uris_and_open_func", "_get_first_tle"]),
     FnSpec("tlefile", "Tle.__init__", ["str", "filearg", opt("str"), opt("str")], cls="Tle"),
     FnSpec("tlefile", "read_platform_numbers", ["str", "bool", Const(False)], locals_={"out_dict": ("dict", "str", "str")}),
+    FnSpec("orbital", "_SGDP4.propagate", [("abs", "TimeArg")], cls="_SGDP4"),
+    FnSpec("orbital", "Orbital.get_last_an_time", [("abs", "TimeArg")], cls="Orbital", maybe_unbound=["t_mid"]),
+    FnSpec("orbital", "Orbital.get_orbit_number", [("abs", "TimeArg"), "bool", Const(True)], cls="Orbital",
+           cuts=["get_last_an_time"]),
+    FnSpec("orbital", "Orbital.get_orbit_number", [("abs", "TimeArg"), "bool", Const(False)], cls="Orbital",
+           cuts=["get_last_an_time"]),
+    FnSpec("orbital", "Orbital.get_next_passes", [UTC, "int", F, F, F, F, F], cls="Orbital",
+           locals_={"risetime": opt(UTC), "risemins": opt(F)}),
+    FnSpec("tlefile", "SQLiteTLE.__init__", ["str", ("dict", "int", "str"), ("abs", "WriterConfig")], cls="SQLiteTLE"),
+    FnSpec("tlefile", "SQLiteTLE.update_db", [("abs", "TleObj"), "str"], cls="SQLiteTLE"),
     FnSpec("tlefile", "Downloader.fetch_spacetrack", [], cls="Downloader"),
     FnSpec("tlefile", "Downloader.fetch_plain_tle", [], cls="Downloader",
            locals_={"tles": ("dict", "str", lst(("abs", "E")))}),
@@ -394,6 +525,11 @@ SPEC = [
 
 
 # ------------------------------------------------------------------------------------------------ translation of one function
+class NeedMaybe(Exception):
+    def __init__(self, name, ty):
+        self.name, self.ty = name, ty
+
+
 class NeedHoist(Exception):
     def __init__(self, name, ty):
         self.name, self.ty = name, ty
@@ -473,6 +609,7 @@ class FnTrans:
         self.mod, self.spec, self.done, self.fnrefs = mod, spec, done, fnrefs
         self.node = find_def(mod.tree, spec.qualname)
         self.hoist = {}          # name -> type
+        self.maybe_known = {}    # possibly-unbound locals whose type is known from an earlier pass
         self.cls = CLASSES[spec.cls] if spec.cls else None
 
     # ---------- entry
@@ -480,6 +617,8 @@ class FnTrans:
         for _ in range(40):
             try:
                 return self._translate_once()
+            except NeedMaybe as h:
+                self.maybe_known[h.name] = h.ty
             except NeedHoist as h:
                 if h.name in self.hoist:
                     raise TransError("internal: hoisting %s twice" % h.name)
@@ -493,6 +632,9 @@ class FnTrans:
         self.scoped_out = {}     # names declared in a block that has ended -> type
         self.ext_used = []       # Ext objects in order of first use
         self.float_ops = False
+        self.float_arith = False
+        self.time_ops = False
+        self.stateful = False
         self.writes_self = False
         self.self_assigned = set()
         self.returns = []        # types of `return` statements
@@ -501,7 +643,32 @@ class FnTrans:
         self.loop_depth = 0
         self.iter_params = []    # parameters that are iterators (returned in their final state)
         self.late_types = {}
+        self.rename = {}
+        self.maybe_types = dict(self.maybe_known)
+        self.fuels = []
         self.in_init = node.name == "__init__" and self.cls is not None
+        # does the function assign instance attributes (then every exit returns the object as well)?
+        if self.cls is not None:
+            for x in ast.walk(node):
+                if isinstance(x, (ast.Assign, ast.AugAssign)):
+                    for t in (x.targets if isinstance(x, ast.Assign) else [x.target]):
+                        for y in (t.elts if isinstance(t, ast.Tuple) else [t]):
+                            if isinstance(y, ast.Attribute) and isinstance(y.value, ast.Name) and y.value.id == "self" \
+                                    and y.attr in self.cls["attrs"]:
+                                self.writes_self = True
+        # the store statements of every traced slot, in source order: a store event names its statement by its ordinal
+        self.store_sites = {}
+        if self.cls is not None:
+            for path in self.cls.get("slots", {}):
+                sites = []
+                for x in ast.walk(node):
+                    if isinstance(x, ast.Assign):
+                        for t in x.targets:
+                            if isinstance(t, ast.Attribute) and ast.unparse(t) == "self." + path:
+                                sites.append((t.lineno, t.col_offset))
+                    if isinstance(x, (ast.AugAssign, ast.Delete)) and ("self." + path) in ast.unparse(x):
+                        raise TransError("%s: augmented assignment / del of the traced slot %s" % (spec.qualname, path))
+                self.store_sites[path] = sorted(sites)
         # names of lists / dicts the function changes in place: Python containers are shared references, the translation
         # copies values; the two agree as long as a container that is changed is never reachable under two names
         self.mutated = set()
@@ -546,6 +713,8 @@ class FnTrans:
                 raise TransError("%s: changes its argument `%s` in place (the caller would see it)" % (spec.qualname, n))
         for n, t in self.hoist.items():
             self.env[n] = t          # declared at the top of the function, not yet assigned
+        for n, t in self.maybe_types.items():
+            self.env[n] = t
         body = self.block(node.body, 1, top=True)
         # result type
         rets = [r for r in self.returns]
@@ -554,7 +723,7 @@ class FnTrans:
             if rets:
                 raise TransError("return in __init__")
             ret = "unit"
-        elif not rets:
+        elif not rets or all(r == "unit" for r in rets):
             ret = "unit"
         else:
             ret = rets[0]
@@ -567,17 +736,19 @@ class FnTrans:
         self.ret = ret
         lines = []
         for n, t in self.hoist.items():
-            lines.append("  let mut %s : %s := %s" % (lname(n), lean_type(t), placeholder(t)))
+            lines.append("  let mut %s : %s := %s" % (self.ln(n), lean_type(t), placeholder(t)))
+        for n, t in self.maybe_types.items():
+            lines.append("  let mut %s : Option %s := none" % (self.ln(n), lean_type(t)))
         if self.cls is not None:
             if self.in_init:
                 lines.insert(0, "  let mut self : %s := %s.unset" % (self.self_type(), self.spec.cls + ".Self"))
             elif self.writes_self:
                 lines.insert(0, "  let mut self := self")
         for n in self.iter_params:
-            lines.insert(0, "  let mut %s := %s" % (lname(n), lname(n)))
+            lines.insert(0, "  let mut %s := %s" % (self.ln(n), self.ln(n)))
         for n, t in self.params:
             if n in self.reassigned_params:
-                lines.insert(0, "  let mut %s := %s" % (lname(n), lname(n)))
+                lines.insert(0, "  let mut %s := %s" % (self.ln(n), self.ln(n)))
         lines += body
         if falls:
             lines.append("  " + self.final_return())
@@ -593,7 +764,7 @@ class FnTrans:
         parts = []
         if self.cls is not None and (self.writes_self or self.in_init):
             parts.append("self")
-        parts += [lname(n) for n in self.iter_params]
+        parts += [self.ln(n) for n in self.iter_params]
         return parts
 
     def pack_return(self, value_code):
@@ -611,6 +782,10 @@ class FnTrans:
         return SELF_TYPES[self.spec.cls]
 
     # ---------- helpers
+    def ln(self, name):
+        """the Lean name of a Python local (a name rebound to a value of another type gets a fresh Lean variable)"""
+        return lname(self.rename.get(name, name))
+
     def fresh(self, base="t"):
         self.tmp += 1
         return "%s__%d" % (base, self.tmp)
@@ -620,6 +795,10 @@ class FnTrans:
                                                      ast.unparse(node)[:100] if isinstance(node, ast.AST) else node))
 
     def use_ext(self, ext):
+        if ext.stateful:
+            if self.cls is None or self.cls.get("heap") != ("abs", ext.stateful):
+                raise TransError("%s: the external %s works on the store of another class" % (self.spec.qualname, ext.param))
+            self.stateful = True
         if ext not in self.ext_used:
             self.ext_used.append(ext)
 
@@ -666,7 +845,14 @@ class FnTrans:
             return E("(some %s)" % paren(inner.sub()), ty)
         if isinstance(ty, tuple) and ty[0] == "list" and isinstance(e.ty, tuple) and e.ty[0] == "list":
             if e.ty[1] == "any":
-                return E("([] : %s)" % lean_type(ty), ty)
+                if e.code == "[]":
+                    return E("([] : %s)" % lean_type(ty), ty)
+                # a local created as `[]` whose element type becomes known here
+                for nm, t_ in list(self.env.items()):
+                    if t_ == lst("any") and self.ln(nm) == e.code:
+                        self.retype(nm, ty, node)
+                        return E(e.code, ty)
+                raise self.err(node, "an empty list of unknown element type where %s is expected" % (ty,))
             inner = self.coerce(E("x__", e.ty[1]), ty[1], node)
             return E("(%s.map fun x__ => %s)" % (paren(e.sub()), inner.code), ty)
         if ty == F and e.ty == "int":
@@ -730,7 +916,13 @@ class FnTrans:
         for pat, ext in CUTS:
             holes = {}
             if match_pattern(ast.parse(pat, mode="eval").body, node, holes):
-                args = [self.want(self.expr(holes[k]), t, node) for k, t in zip(sorted(holes), ext.args)]
+                args = []
+                for k_, t in zip(sorted(holes), ext.args):
+                    a_ = self.expr(holes[k_])
+                    if a_.ty == "int" and t == F:
+                        self.float_ops = True
+                        a_ = self.coerce(a_, F, node)
+                    args.append(self.want(a_, t, node))
                 self.use_ext(ext)
                 return E("%s %s" % (ext.param, " ".join(paren(a.sub()) for a in args)), ext.ret, ext.mon)
         m = getattr(self, "e_" + type(node).__name__, None)
@@ -748,6 +940,23 @@ class FnTrans:
             return E("(%d : Int)" % v, "int")
         if isinstance(v, str):
             return E(str_lit(v), "str")
+        if isinstance(v, float):
+            # the decimal of the source text (the real number written there), as mantissa * 10 ^ exponent
+            import decimal
+            text = (ast.get_source_segment(self.mod.src, n) or repr(v)).replace("_", "")
+            try:
+                d = decimal.Decimal(text)
+            except decimal.InvalidOperation:
+                raise self.err(n, "float literal")
+            sign, digits, exp = d.as_tuple()
+            if sign or not isinstance(exp, int):
+                raise self.err(n, "float literal")
+            m = int("".join(map(str, digits)))
+            while m != 0 and m % 10 == 0:
+                m //= 10
+                exp += 1
+            self.float_arith = True
+            return E("(FloatArith.lit %d (%d : Int) : F)" % (m, exp), F)
         raise self.err(n, "constant of type " + type(v).__name__)
 
     def e_Name(self, n):
@@ -755,11 +964,16 @@ class FnTrans:
         if name in self.consts:
             return self.e_Constant(ast.Constant(self.consts[name]))
         if name in self.env:
+            if name in self.spec.maybe_unbound:
+                # Python raises UnboundLocalError when the name has not been assigned on the path taken
+                return E("Py.boundLocal %s" % self.ln(name), self.env[name], True)
             if name not in self.assigned:
                 raise self.err(n, "local `%s` may be unbound here" % name)
-            return E(lname(name), self.env[name])
+            return E(self.ln(name), self.env[name])
         if name in self.scoped_out:
             raise NeedHoist(name, self.scoped_out[name])
+        if name in self.spec.maybe_unbound and name in self.maybe_types:
+            return E("Py.boundLocal %s" % self.ln(name), self.maybe_types[name], True)
         if name in self.hoist:
             raise self.err(n, "local `%s` may be unbound here" % name)
         if name in GLOBALS:
@@ -773,6 +987,15 @@ class FnTrans:
 
     def e_Attribute(self, n):
         full = ast.unparse(n)
+        if full.startswith("self.") and self.cls is not None and "." in full[5:]:
+            path = full[5:]
+            if path in self.cls.get("slots", {}):
+                # an attribute that may be absent (AttributeError) of an object shared between calls: a traced load
+                self.stateful = True
+                return E("%s.load_%s" % (self.spec.cls, path.split(".")[-1]), self.cls["slots"][path], True)
+            if path in self.cls["attrs"]:
+                return E("self.%s" % path.replace(".", "_"), self.cls["attrs"][path])
+            raise self.err(n, "attribute path not declared in the translator's table")
         if isinstance(n.value, ast.Name) and n.value.id == "self" and self.cls is not None:
             if n.attr not in self.cls["attrs"]:
                 raise self.err(n, "attribute not declared in the translator's table")
@@ -783,6 +1006,12 @@ class FnTrans:
             g = GLOBALS[full]
             self.use_ext(g)
             return E(g.param, g.ret)
+        if isinstance(n.value, ast.Name) and isinstance(self.env.get(n.value.id), tuple) and self.env[n.value.id][0] == "abs" \
+                and (self.env[n.value.id][1], n.attr) in OBJ_ATTRS:
+            ext = OBJ_ATTRS[(self.env[n.value.id][1], n.attr)]
+            v = self.e_Name(n.value)
+            self.use_ext(ext)
+            return E("%s %s" % (ext.param, paren(v.sub())), ext.ret, ext.mon)
         if isinstance(n.value, ast.Name) and n.attr in ("status_code", "text"):
             v = self.e_Name(n.value)
             if v.ty == "response":
@@ -823,6 +1052,10 @@ class FnTrans:
         if isinstance(base0.ty, tuple) and base0.ty[0] == "dict":
             k = self.coerce(self.expr(s), base0.ty[1], n)
             return E("Py.dictGetItem %s %s" % (paren(base0.sub()), paren(k.sub())), base0.ty[2], True)
+        if base0.ty == VEC and self.const_int(s) is not None:
+            ext = EXTERNALS["vec[]"]
+            self.use_ext(ext)
+            return E("%s %s (%d : Int)" % (ext.param, paren(base0.sub()), self.const_int(s)), F)
         base = self.seqlike(base0, n)
         elem = "char" if base.ty == "str" else base.ty[1]
         if isinstance(s, ast.Slice):
@@ -858,8 +1091,29 @@ class FnTrans:
             if b is not None and e is not None and e < 0:
                 self.float_ops = True
                 return E("(FloatOps.intPow (%d : Int) (%d : Int) : F)" % (b, e), F)
-            raise self.err(n, "power other than <int literal> ** <negative int literal>")
+            if e is not None and e >= 0:
+                base = self.expr(n.left)
+                if base.ty == F:
+                    self.float_arith = True
+                    return E("(FloatArith.powNat %s %d)" % (paren(base.sub()), e), F)
+            raise self.err(n, "power other than <int literal> ** <negative int literal> or <float> ** <non-negative int literal>")
         l, r = self.expr(n.left), self.expr(n.right)
+        # numpy datetime64 / timedelta64 arithmetic (uninterpreted: class TimeOps)
+        if T64 in (l.ty, r.ty) or TD in (l.ty, r.ty):
+            self.time_ops = True
+            if isinstance(op, ast.Sub) and l.ty == T64 and r.ty == T64:
+                return E("(TimeOps.diff %s %s : TD)" % (paren(l.sub()), paren(r.sub())), TD)
+            if isinstance(op, ast.Add) and l.ty == T64 and r.ty == TD:
+                return E("(TimeOps.add %s %s : T)" % (paren(l.sub()), paren(r.sub())), T64)
+            if isinstance(op, ast.Sub) and l.ty == T64 and r.ty == TD:
+                return E("(TimeOps.sub %s %s : T)" % (paren(l.sub()), paren(r.sub())), T64)
+            if isinstance(op, ast.Div) and l.ty == TD and r.ty == "int":
+                return E("(TimeOps.divInt (T := T) %s %s : TD)" % (paren(l.sub()), paren(r.sub())), TD)
+            raise self.err(n, "operator %s on %s and %s" % (type(op).__name__, l.ty, r.ty))
+        if isinstance(op, (ast.Add, ast.Div)) and F in (l.ty, r.ty) and {l.ty, r.ty} <= {F, "int"}:
+            self.float_arith = True
+            l, r = self.coerce(l, F, n), self.coerce(r, F, n)
+            return E("(FloatArith.%s %s %s)" % ("add" if isinstance(op, ast.Add) else "div", paren(l.sub()), paren(r.sub())), F)
         if isinstance(op, ast.Add):
             if l.ty == "int" and r.ty == "int":
                 return E("(%s + %s)" % (l.sub(), r.sub()), "int")
@@ -939,6 +1193,11 @@ class FnTrans:
                 l, r = self.coerce(l, opt("str"), n), self.coerce(r, opt("str"), n)     # None == "x" is False, no error
                 return E("(%s %s %s)" % (l.sub(), sym, r.sub()), "bool")
             raise self.err(n, "equality between %s and %s" % (l.ty, r.ty))
+        if isinstance(op, (ast.Lt, ast.LtE, ast.Gt, ast.GtE)) and F in (l.ty, r.ty) and {l.ty, r.ty} <= {F, "int"}:
+            self.float_arith = True
+            l, r = self.coerce(l, F, n), self.coerce(r, F, n)
+            fn = {ast.Lt: "lt", ast.LtE: "le", ast.Gt: "gt", ast.GtE: "ge"}[type(op)]
+            return E("(FloatArith.%s %s %s)" % (fn, paren(l.sub()), paren(r.sub())), "bool")
         if isinstance(op, (ast.Lt, ast.LtE, ast.Gt, ast.GtE)):
             if l.ty == "int" and r.ty == "int":
                 sym = {ast.Lt: "<", ast.LtE: "≤", ast.Gt: ">", ast.GtE: "≥"}[type(op)]
@@ -979,12 +1238,25 @@ class FnTrans:
             a = self.expr(args[0])
             if a.ty == "int":
                 return a
+            if a.ty == F:
+                self.float_arith = True
+                return E("(FloatArith.toInt %s)" % paren(a.sub()), "int")
             a = self.strlike(a, n)
             if self.spec.int_is_cut:
                 ext = EXTERNALS["int@field"]
                 self.use_ext(ext)
                 return E("%s %s" % (ext.param, paren(a.sub())), "int", True)
             return E("Py.int %s" % paren(a.sub()), "int", True)
+        if fname in ("np.abs", "abs") and len(args) == 1 and not kws:
+            a = self.expr(args[0])
+            if a.ty == F:
+                self.float_arith = True
+                return E("(FloatArith.abs %s)" % paren(a.sub()), F)
+            raise self.err(n, "abs of a %s" % (a.ty,))
+        if fname == "np.timedelta64" and len(args) == 2 and not kws and self.const_int(args[0]) is not None \
+                and isinstance(args[1], ast.Constant) and isinstance(args[1].value, str):
+            self.time_ops = True
+            return E('(TimeOps.td (T := T) (%d : Int) "%s" : TD)' % (self.const_int(args[0]), args[1].value), TD)
         if fname == "os.getenv" and len(args) == 2 and not kws:
             g = GLOBALS["os.environ"]
             self.use_ext(g)
@@ -1016,6 +1288,18 @@ class FnTrans:
             if a.ty == "filearg" and cls == "str":
                 return E("%s.isPath" % paren(a.sub()), "bool")
             raise self.err(n, "isinstance on %s" % (a.ty,))
+        if fname in ("max", "min") and len(args) == 2 and not kws:
+            a, b = self.expr(args[0]), self.expr(args[1])
+            a, b = self.unopt(a, n), self.unopt(b, n)
+            if a.ty == "int" and b.ty == "int":
+                # Python: max(a, b) is b if b > a else a; on ints the value is Lean's max / min
+                return E("(%s %s %s)" % (fname, paren(a.sub()), paren(b.sub())), "int")
+            if {a.ty, b.ty} <= {"int", F}:
+                # a mixed int / float max: Python returns one of the two objects; held here as the float of the same value
+                self.float_arith = True
+                a, b = self.coerce(a, F, n), self.coerce(b, F, n)
+                return E("(FloatArith.%s %s %s)" % (fname, paren(a.sub()), paren(b.sub())), F)
+            raise self.err(n, "%s of %s and %s" % (fname, a.ty, b.ty))
         if fname == "max" and len(args) == 1 and set(kws) == {"key"}:
             a = self.expr(args[0])
             key = ast.unparse(kws["key"])
@@ -1051,6 +1335,29 @@ class FnTrans:
             es = [self.coerce_arg(self.expr(a), t, a, ext.none_typeerror) for a, t in zip(args, ext.args)]
             self.use_ext(ext)
             return E("%s %s" % (ext.param, " ".join(paren(e.sub()) for e in es)), ext.ret, ext.mon)
+        # --- module functions whose first argument is the store of the object
+        if isinstance(f, ast.Name) and args and self.cls is not None and self.cls.get("heap_attr") and \
+                ast.unparse(args[0]) == "self." + self.cls["heap_attr"] and not kws:
+            es = [self.expr(a) for a in args[1:]]
+            key_ = (self.spec.cls, f.id, tuple(str(e_.ty) for e_ in es))
+            if key_ in STORE_METHODS:
+                ext = STORE_METHODS[key_]
+                self.use_ext(ext)
+                return E("%s %s" % (ext.param, " ".join(paren(e_.sub()) for e_ in es)), ext.ret, True)
+            raise self.err(n, "function %s on the store with arguments of types %s" % (f.id, key_[2]))
+        # --- methods of self that are parameters (cut points)
+        if isinstance(f, ast.Attribute) and self.is_self_method(f) and (self.spec.cls, f.attr) in SELF_METHOD_EXTS \
+                and (f.attr in self.spec.cuts or
+                     not any(d.spec.qualname == "%s.%s" % (self.spec.cls, f.attr) for d in self.done)):
+            ext = SELF_METHOD_EXTS[(self.spec.cls, f.attr)]
+            for k, v in ext.kwargs.items():
+                if k not in kws or ast.unparse(kws[k]) != v:
+                    raise self.err(n, "method %s must be called with %s=%s" % (f.attr, k, v))
+            if set(kws) - set(ext.kwargs) or len(args) != len(ext.args):
+                raise self.err(n, "arguments of method " + f.attr)
+            es = [self.coerce_arg(self.expr(a), t, a) for a, t in zip(args, ext.args)]
+            self.use_ext(ext)
+            return E("%s %s" % (ext.param, " ".join(paren(e.sub()) for e in es)), ext.ret, ext.mon)
         # --- translated functions
         return self.call_translated(n, f, fname, args, kws)
 
@@ -1066,11 +1373,47 @@ class FnTrans:
         except TransError:
             raise self.err(node, "argument of type %s for a parameter of type %s" % (e.ty, t))
 
+    def split_tuple(self, code):
+        """the components of a tuple expression `(a, b, c)` emitted by e_Tuple"""
+        assert code[0] == "(" and code[-1] == ")"
+        parts, depth_, cur = [], 0, ""
+        for ch in code[1:-1]:
+            if ch in "([":
+                depth_ += 1
+            elif ch in ")]":
+                depth_ -= 1
+            if ch == "," and depth_ == 0:
+                parts.append(cur.strip())
+                cur = ""
+            else:
+                cur += ch
+        parts.append(cur.strip())
+        return parts
+
     def is_self_method(self, f):
         return isinstance(f.value, ast.Name) and f.value.id == "self" and self.cls is not None
 
     def method_call(self, n, f, args, kws):
         m = f.attr
+        if self.cls is not None and self.cls.get("heap_attr") and ast.unparse(f.value) == "self." + self.cls["heap_attr"]:
+            if kws:
+                raise self.err(n, "keyword arguments to a method of the store")
+            es = []
+            for a in args:
+                e_ = self.expr(a)
+                if isinstance(e_.ty, tuple) and e_.ty[0] == "tuple":     # a parameter tuple is passed as its components
+                    tmp = e_.sub()
+                    m_ = re.fullmatch(r"\((.*)\)", tmp)
+                    parts_ = self.split_tuple(tmp)
+                    es += [E(c_, t_) for c_, t_ in zip(parts_, e_.ty[1])]
+                else:
+                    es.append(e_)
+            key_ = (self.spec.cls, m, tuple(str(e_.ty) if e_.ty != "char" else "str" for e_ in es))
+            if key_ not in STORE_METHODS:
+                raise self.err(n, "method %s of the store with arguments of types %s" % (m, key_[2]))
+            ext = STORE_METHODS[key_]
+            self.use_ext(ext)
+            return E("%s %s" % (ext.param, " ".join(paren(self.coerce(e_, t_, n).sub()) for e_, t_ in zip(es, ext.args))), ext.ret, True)
         recv = self.expr(f.value)
         if isinstance(recv.ty, tuple) and recv.ty[0] == "abs" and (recv.ty[1], m) in ABS_METHODS:
             ext = ABS_METHODS[(recv.ty[1], m)]
@@ -1177,6 +1520,12 @@ class FnTrans:
             self.use_ext(x)
         if d.float_ops:
             self.float_ops = True
+        if getattr(d, "float_arith", False):
+            self.float_arith = True
+        if getattr(d, "time_ops", False):
+            self.time_ops = True
+        if getattr(d, "stateful", False):
+            self.stateful = True
         parts = [d.lean_name] + [x.param for x in d.ext_params]
         if d.spec.cls:
             if not is_method:
@@ -1309,7 +1658,7 @@ class FnTrans:
             if e.done.writes_self:
                 names.append("self")
                 self.writes_self = True
-            names += [lname(x) for x in e.iter_args]
+            names += [self.ln(x) for x in e.iter_args]
             tmp = self.fresh("p")
             pre.append(self.ind(depth, "let %s ← %s" % (tmp, e.code)))
             # unpack the right-nested tuple
@@ -1342,8 +1691,8 @@ class FnTrans:
                 break
             it = m.group(1)
             v = self.fresh("nx")
-            pre.append(self.ind(depth, "let %s ← Py.next %s" % (v, lname(it))))
-            pre.append(self.ind(depth, "%s := %s.2" % (lname(it), v)))
+            pre.append(self.ind(depth, "let %s ← Py.next %s" % (v, self.ln(it))))
+            pre.append(self.ind(depth, "%s := %s.2" % (self.ln(it), v)))
             # the placeholder may be wrapped as (← __NEXT__it)
             if "(← __NEXT__%s)" % it in code:
                 code = code.replace("(← __NEXT__%s)" % it, "%s.1" % v, 1)
@@ -1388,7 +1737,7 @@ class FnTrans:
                 t = lst(e.ty if e.ty != "char" else "str")
                 self.retype(name, t, s)
             e = self.coerce(e, t[1], s)
-            return pre + [self.ind(depth, "%s := %s ++ [%s]" % (lname(name), lname(name), e.sub()))]
+            return pre + [self.ind(depth, "%s := %s ++ [%s]" % (self.ln(name), self.ln(name), e.sub()))]
         e = self.rhs(v, depth, pre)
         if e.ty != "unit":
             # a call whose value is discarded
@@ -1410,12 +1759,24 @@ class FnTrans:
         """`name = e`"""
         if name in self.consts:
             raise self.err(node, "assignment to a specialised parameter")
+        if name in self.spec.maybe_unbound:
+            t = e.ty if e.ty != "char" else "str"
+            if name in self.maybe_types and self.maybe_types[name] != t:
+                raise self.err(node, "the possibly-unbound local `%s` gets values of two types" % name)
+            if name not in self.maybe_types:
+                self.maybe_types[name] = t
+                raise NeedMaybe(name, t)
+            e = self.coerce(e, t, node)
+            self.env[name] = t
+            return [self.ind(depth, "%s := some %s" % (self.ln(name), paren(e.sub())))]
         if name in self.env:
             t = self.env[name]
             if isinstance(t, tuple) and t == lst("any") and isinstance(e.ty, tuple) and e.ty[0] == "list" and e.ty[1] != "any":
                 t = e.ty
                 self.retype(name, t, node)
             try:
+                if e.ty == "int" and t == F:
+                    raise TransError("an int assigned to a name that held a float stays an int")
                 e2 = self.coerce(e, t, node)
             except TransError:
                 # the name is rebound to a value of another type: a new Lean variable that shadows the old one.  Only
@@ -1426,11 +1787,17 @@ class FnTrans:
                     raise
                 self.env[name] = e.ty
                 self.assigned.add(name)
-                return [self.ind(depth, "let mut %s : %s := %s" % (lname(name), lean_type(e.ty), e.sub()))]
+                code = e.sub()                  # (the old variable may occur in the new value)
+                if any(name == p_ for p_, _ in self.params) and name not in self.rename and name not in self.reassigned_params:
+                    pass                        # a parameter is not `mut`: it can be shadowed under its own name
+                else:
+                    self.tmp += 1
+                    self.rename[name] = "%s__%d" % (name, self.tmp)
+                return [self.ind(depth, "let mut %s : %s := %s" % (self.ln(name), lean_type(e.ty), code))]
             self.assigned.add(name)
             if any(name == p for p, _ in self.params):
                 self.reassigned_params.add(name)
-            return [self.ind(depth, "%s := %s" % (lname(name), e2.sub()))]
+            return [self.ind(depth, "%s := %s" % (self.ln(name), e2.sub()))]
         # (a name that went out of scope with its block and is assigned again is simply declared again; a later READ of a
         #  name that is out of scope raises NeedHoist and the function is translated again with the name hoisted)
         if name in self.spec.locals:
@@ -1454,8 +1821,8 @@ class FnTrans:
         self.env[name] = t
         self.assigned.add(name)
         if t == lst("any"):
-            return [self.ind(depth, "let mut %s : __TYPEOF_%s__ := []" % (lname(name), name))]
-        return [self.ind(depth, "let mut %s : %s := %s" % (lname(name), lean_type(t), e.sub()))]
+            return [self.ind(depth, "let mut %s : __TYPEOF_%s__ := []" % (self.ln(name), name))]
+        return [self.ind(depth, "let mut %s : %s := %s" % (self.ln(name), lean_type(t), e.sub()))]
 
     def no_alias(self, value_node, dest_name, node):
         """`dest = src` / `d[k] = src` / `l.append(src)` with src the name of a list or dict: afterwards the same container
@@ -1473,6 +1840,14 @@ class FnTrans:
             self.no_alias(node.value, dest, node)
         if isinstance(tgt, ast.Name):
             return self.declare_or_assign(tgt.id, e, depth, node)
+        if isinstance(tgt, ast.Attribute) and self.cls and ast.unparse(tgt).startswith("self.") and \
+                ast.unparse(tgt)[5:] in self.cls.get("slots", {}):
+            path = ast.unparse(tgt)[5:]
+            e = self.coerce(e, self.cls["slots"][path], node)
+            self.stateful = True
+            sites = self.store_sites[path]
+            site = sites.index((tgt.lineno, tgt.col_offset))
+            return [self.ind(depth, "%s.store_%s %d %s" % (self.spec.cls, path.split(".")[-1], site, paren(e.sub())))]
         if isinstance(tgt, ast.Attribute) and isinstance(tgt.value, ast.Name) and tgt.value.id == "self" and self.cls:
             if tgt.attr not in self.cls["attrs"]:
                 raise self.err(node, "attribute `%s` not declared in the translator's table" % tgt.attr)
@@ -1489,7 +1864,7 @@ class FnTrans:
                     t = ("dict", t[1], e.ty)
                     self.env[name] = t
                 e = self.coerce(e, t[2], node)
-                return [self.ind(depth, "%s := Py.dictSet %s %s %s" % (lname(name), lname(name), paren(k.sub()), paren(e.sub())))]
+                return [self.ind(depth, "%s := Py.dictSet %s %s %s" % (self.ln(name), self.ln(name), paren(k.sub()), paren(e.sub())))]
         raise self.err(node, "assignment target")
 
     def s_Assign(self, s, depth):
@@ -1497,6 +1872,25 @@ class FnTrans:
             raise self.err(s, "chained assignment")
         tgt = s.targets[0]
         pre = []
+        if self.cls is not None and self.cls.get("heap_attr") and ast.unparse(tgt) == "self." + self.cls["heap_attr"]:
+            if not (isinstance(s.value, ast.Call) and ast.unparse(s.value.func) in HEAP_OPENERS and len(s.value.args) == 1
+                    and not s.value.keywords):
+                raise self.err(s, "the store attribute is assigned something other than its declared opener")
+            ext = HEAP_OPENERS[ast.unparse(s.value.func)]
+            a = self.coerce_arg(self.rhs(s.value.args[0], depth, pre), ext.args[0], s)
+            self.use_ext(ext)
+            return pre + [self.ind(depth, "%s %s" % (ext.param, paren(a.sub())))]
+        if isinstance(tgt, ast.Attribute) and isinstance(tgt.value, ast.Name) and tgt.value.id != "self" and \
+                isinstance(self.env.get(tgt.value.id), tuple) and self.env[tgt.value.id][0] == "abs" and \
+                (self.env[tgt.value.id][1], tgt.attr) in OBJ_ATTRS_NOT_KEPT:
+            # an attribute set on an argument object that nothing in the translated code reads: the value is evaluated
+            # (it may raise), the store itself is not kept
+            e = self.rhs(s.value, depth, pre)
+            if e.mon:
+                pre.append(self.ind(depth, "let _ ← %s" % e.code))
+            elif "←" in e.code:
+                pre.append(self.ind(depth, "let _ := %s" % e.code))
+            return pre
         e = self.rhs(s.value, depth, pre)
         if isinstance(tgt, ast.Tuple):
             n = len(tgt.elts)
@@ -1530,7 +1924,7 @@ class FnTrans:
             if not (isinstance(e.ty, tuple) and e.ty[0] == "list"):
                 raise self.err(s, "+= of a %s to a list" % (e.ty,))
             self.retype(s.target.id, e.ty, s)
-            return pre + [self.ind(depth, "%s := %s ++ %s" % (lname(s.target.id), lname(s.target.id), e.sub()))]
+            return pre + [self.ind(depth, "%s := %s ++ %s" % (self.ln(s.target.id), self.ln(s.target.id), e.sub()))]
         pre = []
         e = self.rhs(val, depth, pre)
         return pre + self.assign_target(s.target, e, depth, s)
@@ -1563,6 +1957,8 @@ class FnTrans:
             code = "Exc.%s" % cls
         elif cls in self.mod.exc_classes:
             code = 'Exc.named "%s"' % cls
+        elif isinstance(getattr(builtins, cls, None), type) and issubclass(getattr(builtins, cls), BaseException):
+            code = 'Exc.named "%s"' % cls          # another builtin exception class (no translated handler names it)
         else:
             raise self.err(s, "raise of a class that is neither a known builtin nor defined in the module from Exception")
         outs = []
@@ -1691,9 +2087,9 @@ class FnTrans:
         if isinstance(s.iter, ast.Name) and isinstance(self.env.get(s.iter.id), tuple) and self.env[s.iter.id][0] == "iter":
             it = s.iter.id
             el = self.env[it][1]
-            lines = [self.ind(depth, "for _ in Py.iterFuel %s do" % lname(it)),
-                     self.ind(depth + 1, "let some %s := %s.head? | break" % (lname(var), lname(it))),
-                     self.ind(depth + 1, "%s := %s.tail" % (lname(it), lname(it)))]
+            lines = [self.ind(depth, "for _ in Py.iterFuel %s do" % self.ln(it)),
+                     self.ind(depth + 1, "let some %s := %s.head? | break" % (self.ln(var), self.ln(it))),
+                     self.ind(depth + 1, "%s := %s.tail" % (self.ln(it), self.ln(it)))]
             self.env[var] = el
             self.assigned.add(var)
             self.loop_depth += 1
@@ -1737,7 +2133,36 @@ class FnTrans:
         self.loop_depth -= 1
         self.scoped_out[var] = self.env.pop(var)
         self.assigned = a0
-        return pre + [self.ind(depth, "for %s in %s do" % (lname(var), itcode))] + body
+        return pre + [self.ind(depth, "for %s in %s do" % (self.ln(var), itcode))] + body
+
+    def s_While(self, s, depth):
+        """`while cond: body` with fuel: the Lean function gets one more parameter `fuel_k : Nat` per loop; at most `fuel_k`
+        passes are made; if the condition still holds after them the result is the marker `Exc.outOfFuel` (Python would
+        go on).  The condition is evaluated exactly as often as Python evaluates it on the passes that are made."""
+        if s.orelse:
+            raise self.err(s, "while ... else")
+        k = len(self.fuels) + 1
+        fuel = "fuel_%d" % k
+        self.fuels.append(fuel)
+        done = "done__%d" % k
+        a0 = set(self.assigned)
+        sa0 = set(self.self_assigned)
+        pre = []
+        cond = self.truthy(self.rhs(s.test, depth + 1, pre), s.test)
+        lines = [self.ind(depth, "let mut %s := false" % done), self.ind(depth, "for _ in List.replicate %s () do" % fuel)]
+        lines += pre
+        lines += [self.ind(depth + 1, "if !(%s) then" % cond.sub()), self.ind(depth + 2, "%s := true" % done),
+                  self.ind(depth + 2, "break")]
+        self.loop_depth += 1
+        body = self.block(s.body, depth + 1)
+        self.loop_depth -= 1
+        self.assigned = a0
+        self.self_assigned = sa0
+        pre2 = []
+        cond2 = self.truthy(self.rhs(s.test, depth + 1, pre2), s.test)
+        tail = [self.ind(depth, "if !%s then" % done)] + pre2 + [self.ind(depth + 1, "if %s then" % cond2.sub()),
+                                                                self.ind(depth + 2, "throw Exc.outOfFuel")]
+        return lines + body + tail
 
     def s_Try(self, s, depth):
         if s.finalbody or s.orelse or len(s.handlers) != 1:
@@ -1746,17 +2171,50 @@ class FnTrans:
         if h.type is None or h.name is not None:
             raise self.err(s, "bare except / except ... as")
         cls = ast.unparse(h.type)
-        if len(s.body) != 1 or not isinstance(s.body[0], (ast.Assign, ast.Expr)):
-            raise self.err(s, "try body that is not a single simple statement (assignments made before the exception "
-                              "would have to survive it)")
+        # Lean's `try` undoes the assignments to locals made in the body before the exception; Python keeps them.  One
+        # simple statement cannot tell the difference.  Several are accepted when they are assignments to local names only
+        # and the handler assigns every one of them again on every path (checked below): then no later read can tell.
+        multi = len(s.body) != 1
+        if multi:
+            for st in s.body:
+                if not (isinstance(st, ast.Assign) and len(st.targets) == 1 and isinstance(st.targets[0], ast.Name)):
+                    raise self.err(s, "try body of several statements that are not all assignments to local names "
+                                      "(what was done before the exception would have to survive it)")
+        elif isinstance(s.body[0], ast.With):
+            # one transaction block: assignments to locals / attributes made inside it before an exception are undone by
+            # Lean's `try`; accepted when every such assignment is the last thing the block does (nothing after it can raise)
+            inner = s.body[0].body
+            for k_, st in enumerate(inner):
+                if isinstance(st, (ast.Assign, ast.AugAssign)) and k_ != len(inner) - 1:
+                    raise self.err(s, "an assignment inside a guarded transaction block that is not its last statement")
+        elif not isinstance(s.body[0], (ast.Assign, ast.Expr)):
+            raise self.err(s, "try body that is not a simple statement")
+        body_names = {st.targets[0].id for st in s.body if multi}
         a0 = set(self.assigned)
         sa0 = set(self.self_assigned)
-        n_ext = len(self.ext_used)
-        body = self.block(s.body, depth + 1)
+        saved_ext = self.ext_used
+        self.ext_used = []
+        txn = None
+        if isinstance(s.body[0], ast.With):
+            # `try: with self.db: BODY  except K: H`: roll back, then the handler (one Lean `try`: a nested one would
+            # capture the outer `catch`)
+            w = s.body[0]
+            if not (len(w.items) == 1 and w.items[0].optional_vars is None and self.cls is not None and self.cls.get("heap_attr")
+                    and ast.unparse(w.items[0].context_expr) == "self." + self.cls["heap_attr"]):
+                raise self.err(s, "a guarded with-block that is not a transaction on the store")
+            self.stateful = True
+            txn = self.fresh("snap")
+            body = self.block(w.body, depth + 1)
+        else:
+            body = self.block(s.body, depth + 1)
+        body_ext = self.ext_used
+        self.ext_used = saved_ext
+        for x in body_ext:
+            self.use_ext(x)
         o1, s1 = set(self.assigned), set(self.self_assigned)
         # the handler's class must not have a proper subclass among what the body can raise
         raised = set(PRELUDE_RAISES)
-        for x in self.ext_used:
+        for x in body_ext:
             raised |= set(x.raises)
         if cls in BUILTIN_EXC:
             code = "Exc.%s" % cls
@@ -1773,13 +2231,25 @@ class FnTrans:
             raise self.err(s, "except of class " + cls)
         self.assigned = set(a0)
         self.self_assigned = set(sa0)
-        hb, o2, s2 = self.branch(h.body, depth + 2, a0)
+        hb, o2, s2 = self.branch(h.body, depth + 2, a0 - body_names)
+        # (a name that is local to the try statement cannot be read afterwards; one that is read afterwards has been
+        #  hoisted by then, and for those the handler must assign it again on every path)
+        live_names = {x for x in body_names if x in self.hoist or x in a0}
+        if multi and o2 is not None and not live_names <= set(o2):
+            raise self.err(s, "the handler does not assign %s again on every path (assigned in the try body before a "
+                              "possible exception)" % sorted(live_names - set(o2)))
+        if o2 is not None:
+            o2 = set(o2) | (a0 & body_names)
         self.assigned = self.merge([o1, o2])
         live = [x for x in (s1, s2) if x is not None]
         self.self_assigned = set.intersection(*live)
         ev = self.fresh("exc")
-        return ([self.ind(depth, "try")] + body + [self.ind(depth, "catch %s =>" % ev),
-                                                  self.ind(depth + 1, "if %s == %s then" % (ev, code))] + hb +
+        head, roll = [], []
+        if txn:
+            head = [self.ind(depth, "let %s ← (Py.heapGet : MS %s %s)" % (txn, HEAP_TYPES[self.spec.cls], HEAP_TYPES[self.spec.cls]))]
+            roll = [self.ind(depth + 1, "Py.heapSet %s" % txn)]
+        return (head + [self.ind(depth, "try")] + body + [self.ind(depth, "catch %s =>" % ev)] + roll +
+                [self.ind(depth + 1, "if %s == %s then" % (ev, code))] + hb +
                 [self.ind(depth + 1, "else throw %s" % ev)])
 
     def s_FunctionDef(self, s, depth):
@@ -1794,6 +2264,17 @@ class FnTrans:
     def s_With(self, s, depth):
         """`with <external context manager>(args) as name:` for the context managers declared in CONTEXT_MANAGERS: the
         entered value is the external's result; leaving the block (closing) has no effect the translation keeps."""
+        if len(s.items) == 1 and s.items[0].optional_vars is None and self.cls is not None and self.cls.get("heap_attr") \
+                and ast.unparse(s.items[0].context_expr) == "self." + self.cls["heap_attr"]:
+            # `with self.db:` of a sqlite3 connection: commit when the block ends normally, roll back (the store is what
+            # it was at entry) and re-raise when an exception leaves it
+            self.stateful = True
+            snap, ev = self.fresh("snap"), self.fresh("exc")
+            body = self.block_inline(s.body, depth + 1)
+            return ([self.ind(depth, "let %s ← (Py.heapGet : MS %s %s)" % (snap, HEAP_TYPES[self.spec.cls], HEAP_TYPES[self.spec.cls])),
+                     self.ind(depth, "try")] + (body or [self.ind(depth + 1, "pure ()")]) +
+                    [self.ind(depth, "catch %s =>" % ev), self.ind(depth + 1, "Py.heapSet %s" % snap),
+                     self.ind(depth + 1, "throw %s" % ev)])
         if len(s.items) != 1 or not isinstance(s.items[0].context_expr, ast.Call) or \
                 not isinstance(s.items[0].optional_vars, ast.Name):
             raise self.err(s, "with statement of this shape")
@@ -1832,7 +2313,7 @@ def _as_load(t):
 
 
 FNREF_IMPORTS = {"urlopen"}
-NAMED_HANDLERS = {"requests.exceptions.Timeout"}
+NAMED_HANDLERS = {"requests.exceptions.Timeout", "sqlite3.IntegrityError"}
 NAMED_NOT_SUBCLASS = {"ValueError": {"xml.ParseError", "requests.exceptions.Timeout", "OverflowError"}}
 
 
@@ -1850,18 +2331,32 @@ def signature(ft, lean_name):
     if ft.cls is not None:
         for v in SELF_TVARS[ft.spec.cls]:
             tv.add(v)
-    if ft.float_ops:
+    if ft.float_ops or ft.float_arith:
         tv.add("F")
+    if ft.time_ops:
+        tv.add("T")
+        tv.add("TD")
+    if ft.stateful:
+        for v in HEAP_TVARS[ft.spec.cls]:
+            tv.add(v)
     tv = sorted(tv)
     b = []
     if tv:
         b.append("{%s : Type}" % " ".join(tv))
     if ft.float_ops:
         b.append("[FloatOps F]")
+    if ft.float_arith:
+        b.append("[FloatArith F]")
+    if ft.time_ops:
+        b.append("[TimeOps T TD]")
+    for v in sorted(ft.inhabited):
+        b.append("[Inhabited %s]" % v)
     if "K" in tv:
         b.append("[LT K] [DecidableLT K]")
     for x in ft.ext_used:
         b.append("(%s : %s)" % (x.param, x.lean_sig()))
+    for f_ in ft.fuels:
+        b.append("(%s : Nat)" % f_)
     if ft.cls is not None and not ft.in_init:
         b.append("(self : %s)" % SELF_TYPES[ft.spec.cls])
     for n, t in ft.params:
@@ -1877,6 +2372,48 @@ def signature(ft, lean_name):
     return tv, b, res
 
 
+HEAP_TYPES = {}
+HEAP_TVARS = {}
+SELF_UNSET_INHABITED = {}
+
+
+def emit_heap(cname, cls):
+    """the attributes of a shared sub-object that may be absent (`AttributeError`): a heap with one optional slot per
+    attribute and the trace of the loads and stores performed on it, in program order"""
+    tv = set()
+    for t in cls["slots"].values():
+        type_vars(t, tv)
+    tv = sorted(tv)
+    HEAP_TVARS[cname] = tv
+    targs = (" " + " ".join(tv)) if tv else ""
+    HEAP_TYPES[cname] = "(%s.Heap%s)" % (cname, targs)
+    binder = (" (%s : Type)" % " ".join(tv)) if tv else ""
+    ibinder = (" {%s : Type}" % " ".join(tv)) if tv else ""
+    out = ["/-- one load or store of a traced attribute of `%s` (a load of an absent attribute is the AttributeError; a store"
+           % cname, "    names the store statement by its ordinal in the source of the function) -/",
+           "inductive %s.Ev%s where" % (cname, binder)]
+    for path, t in cls["slots"].items():
+        a = path.split(".")[-1]
+        out.append("  | load_%s (v : Option %s)" % (a, lean_type(t)))
+        out.append("  | store_%s (site : Nat) (v : %s)" % (a, lean_type(t)))
+    out += ["", "/-- the traced attributes (%s) and the trace, oldest event first -/" % ", ".join("`%s`" % p for p in cls["slots"]),
+            "structure %s.Heap%s where" % (cname, binder)]
+    for path, t in cls["slots"].items():
+        out.append("  %s : Option %s" % (path.split(".")[-1], lean_type(t)))
+    out.append("  trace : List (%s.Ev%s)" % (cname, targs))
+    out.append("")
+    for path, t in cls["slots"].items():
+        a = path.split(".")[-1]
+        out += ["/-- `self.%s` read: the value, or AttributeError when it has not been stored yet -/" % path,
+                "def %s.load_%s%s : MS %s %s := fun h =>" % (cname, a, ibinder, HEAP_TYPES[cname], lean_type(t)),
+                "  (match h.%s with | some v => Except.ok v | none => Except.error Exc.AttributeError," % a,
+                "   { h with trace := h.trace ++ [%s.Ev.load_%s h.%s] })" % (cname, a, a), "",
+                "/-- `self.%s = v` -/" % path,
+                "def %s.store_%s%s (site : Nat) (v : %s) : MS %s Unit := fun h =>" % (cname, a, ibinder, lean_type(t), HEAP_TYPES[cname]),
+                "  (Except.ok (), { h with %s := some v, trace := h.trace ++ [%s.Ev.store_%s site v] })" % (a, cname, a), ""]
+    return out
+
+
 def emit_self_structure(cname, cls):
     tv = set()
     for t in cls["attrs"].values():
@@ -1887,13 +2424,22 @@ def emit_self_structure(cname, cls):
     out = ["/-- the instance attributes of `%s` (types declared in harness/pytrans.py; an assignment of another type is refused) -/" % cname,
            "structure %s.Self %s where" % (cname, ("(%s : Type)" % " ".join(tv)) if tv else "")]
     for a, t in cls["attrs"].items():
-        out.append("  %s : %s" % (a, lean_type(t)))
+        out.append("  %s : %s" % (a.replace(".", "_"), lean_type(t)))
     out.append("")
+    if cls.get("slots"):
+        out += emit_heap(cname, cls)
+    if cls.get("heap"):
+        HEAP_TYPES[cname] = cls["heap"][1]
+        HEAP_TVARS[cname] = [cls["heap"][1]]
     if not any(sp.cls == cname and sp.qualname.endswith(".__init__") for sp in SPEC):
         return out
     out.append("/-- the object before `__init__` has assigned anything (every field is assigned before it is read: checked by the translator) -/")
-    out.append("def %s.Self.unset %s: %s :=" % (cname, ("{%s : Type} " % " ".join(tv)) if tv else "", SELF_TYPES[cname]))
-    out.append("  { " + ", ".join("%s := %s" % (a, placeholder(t)) for a, t in cls["attrs"].items()) + " }")
+    INHABITED_NEEDED.clear()
+    fields = ", ".join("%s := %s" % (a.replace(".", "_"), placeholder(t)) for a, t in cls["attrs"].items())
+    inh = " ".join("[Inhabited %s]" % v for v in sorted(INHABITED_NEEDED))
+    SELF_UNSET_INHABITED[cname] = set(INHABITED_NEEDED)
+    out.append("def %s.Self.unset %s%s : %s :=" % (cname, ("{%s : Type} " % " ".join(tv)) if tv else "", inh, SELF_TYPES[cname]))
+    out.append("  { " + fields + " }")
     out.append("")
     return out
 
@@ -1905,6 +2451,8 @@ def gen_translated():
     fnrefs = set()
     SELF_TYPES.clear()
     SELF_TVARS.clear()
+    HEAP_TYPES.clear()
+    HEAP_TVARS.clear()
     class_out = []
     for cname, cls in CLASSES.items():
         class_out += emit_self_structure(cname, cls)
@@ -1913,17 +2461,26 @@ def gen_translated():
     for spec in SPEC:
         mod = mods.get(spec.module) or mods.setdefault(spec.module, Module(spec.module))
         ft = FnTrans(mod, spec, done, fnrefs)
+        INHABITED_NEEDED.clear()
         lines = ft.translate()
+        ft.inhabited = set(INHABITED_NEEDED)
+        if ft.in_init:
+            ft.inhabited |= SELF_UNSET_INHABITED.get(spec.cls, set())
+        for dd in done:                       # a callee's needs are the caller's
+            if dd.lean_name in "\n".join(lines):
+                ft.inhabited |= getattr(dd, "inhabited", set())
         lean_name = spec.lean
         if spec.special:
             lean_name += "__" + "_".join("%s_%s" % (k, v) for k, v in sorted(ft.special_names.items()))
         ft.ext_used.sort(key=lambda x: x.param)
         tv, binders, res = signature(ft, lean_name)
-        ft.ext_used.sort(key=lambda x: x.param)      # a canonical order: independent of the order of first use
+        monad = "MS %s" % HEAP_TYPES[spec.cls] if ft.stateful else "M"
         d = Done(spec, lean_name, list(ft.ext_used), tv, None, list(ft.params), ft.ret, ft.writes_self or ft.in_init,
                  list(ft.iter_params))
         d.node = ft.node
+        d.inhabited = ft.inhabited
         d.float_ops = ft.float_ops
+        d.float_arith, d.time_ops, d.stateful = ft.float_arith, ft.time_ops, ft.stateful
         done.append(d)
         src_first = ft.node.lineno
         src_last = ft.node.end_lineno
@@ -1931,7 +2488,7 @@ def gen_translated():
         if spec.special:
             doc += " specialised to " + ", ".join("%s=%r" % kv for kv in sorted(ft.special_names.items()))
         defs.append("/-- %s -/" % doc)
-        defs.append("def %s %s : M %s := do" % (lean_name, " ".join(binders), res))
+        defs.append("def %s %s : %s %s := do" % (lean_name, " ".join(binders), monad, res))
         defs += lines
         defs.append("")
         trusted.append((lean_name, doc, list(ft.ext_used)))
